@@ -48,6 +48,11 @@ PROPS = {
         "trusted_base": ["Lean Float for float arithmetic (kernel-opaque: float results are equal because model and reference apply the same operation)", "math.Pow compared only where exact", "the parser side of the statement (tree -> node) is tied by correspondence; parse_pp is not yet a theorem"],
         "assumptions": ["every generated tree inside the fragment is rendered through {{ e }} and {% if e %} and compared with an independent Go evaluator written from the property's wording and with the Lean model"],
     },
+    "C09": {
+        "suites": [{"name": "c09-ctl", "proj": ["reference", "class", "output", "driver"]}],
+        "trusted_base": ["sort.Sort is modelled as a stable insertion sort (generated lists are homogeneous, so equal elements are indistinguishable)", "Go map iteration order is outside the model: maps are iterated sorted or have one key"],
+        "assumptions": ["every render uses a freshly compiled template (C04 is separate)"],
+    },
     "C14": {
         "suites": [{"name": "c14-fail", "proj": ["variants"]}],
         "trusted_base": ["bytes.Buffer / io.Writer plumbing is modelled as an append-only byte list with save/restore for buffering constructs", "the prefix property of the unbuffered variant (output only grows) is decided by the fault-injection suite, not yet by a theorem over the whole interpreter"],
